@@ -170,6 +170,10 @@ def expr(draw, depth=2):
             return '{%s: %s for %s in %s%s}' % (body, sub(), tgt, sub(), cond)
         return 'sum(%s for %s in %s%s)' % (body, tgt, sub(), cond)
     if kind == 16:
+        if draw(st.booleans()):
+            # parameters (some with defaults, some starred) that the body really uses, called on the spot
+            return draw(st.sampled_from(['(lambda q=1: q)(%s)', '(lambda q, r=1: q + r)(%s)', '(lambda q, *rest, r=2: (q, rest, r))(%s)',
+                                         '(lambda **kw: kw)(k=%s)', '(lambda q=%s: q)()'])) % sub()
         return '(lambda %s: %s)' % (draw(st.sampled_from(['', 'q', 'q, r=1', '*q'])), sub())
     if kind == 17:
         return '(%s if %s else %s)' % (sub(), sub(), sub())
